@@ -48,8 +48,21 @@
 //! as select value as id2, value % 5 as k from generate_series(0, 50); select count(*) from (select t.id,
 //! u.id2 from (select id, k from t group by id, k) t join u on (t.k + u.k) % 97 = 0);`). The repair
 //! re-executes `reset_plan_states(left_plan)`; with it (mutrun) the regression case and `C20 quick` pass.
-//! Until the repair is committed the class NestedLoop × MemRefuse{disk} × target_partitions ≥ 2 is excluded
-//! through `known_signature` (counter `known_excluded`).
+//!
+//! **Second genuine defect** (found by the thorough tier; regression cases
+//! `/verif/regressions/C20/c20/nlj-fallback-multi-partition-left-emission.json` and — with a plain 16 KiB
+//! GreedyMemoryPool and MemTables — `/verif/regressions/C18/c18/nlj-fallback-multi-partition-left-emission.json`;
+//! repair `/verif/fixes/C18-nlj-fallback-multi-partition-left-emission.diff`): in the same fallback path every
+//! right partition builds its own left bitmap, so for join types that emit left rows at the end (LEFT, LEFT
+//! SEMI, LEFT ANTI, LEFT MARK) each partition emits "unmatched" left rows judged by its own matches only →
+//! spurious NULL-extended rows (`t RIGHT JOIN u` planned as NLJ Left: expected 101 rows, got 282). The code
+//! comment in `NestedLoopJoinExec::execute` already calls this a latent issue and guards only FULL joins; the
+//! repair extends that guard to `need_produce_result_in_final(join_type)` (those joins then fail cleanly
+//! with ResourcesExhausted instead of answering wrongly).
+//!
+//! Until the repairs are committed the class NestedLoop × MemRefuse{disk} × (target_partitions ≥ 2 or a
+//! multi-partition source) is excluded through `known_signature` (counter `known_excluded`); both findings
+//! are registered under that one class signature in /verif/known_findings.json.
 //!
 //! **Sensitivity probes** (patches in `crates/vf-res/probes/`, run with `tools/mutrun <patch> -- ./check C20
 //! quick`; all on VERIF_SEED=0):
@@ -559,11 +572,12 @@ impl Property for C20 {
         done(CaseResult::pass().nontrivial(reached_any && !expected.is_empty()), &mut labels)
     }
     fn known_signature(&self, case: &Case) -> Option<String> {
-        // genuine defect (see /verif/fixes/C20-nlj-fallback-reexecutes-left-child.diff): the nested-loop join's
-        // out-of-memory fallback re-executes its already executed left child; a RepartitionExec below it
-        // (target_partitions >= 2) panics with "partition not used yet".
+        // Two genuine defects of NestedLoopJoinExec's out-of-memory fallback share this class (see the module
+        // header): (A) the fallback re-executes the already executed left child (panic below a RepartitionExec),
+        // (B) with several right partitions every partition emits its own "unmatched" left rows.
         let nlj = case.query.shape.join_algo() == Some(JoinAlgo::NestedLoop);
-        if nlj && matches!(case.fault, FaultKind::MemRefuse { disk: true, .. }) && case.cfg.target_partitions >= 2 {
+        let multi = case.cfg.target_partitions >= 2 || case.cfg.parts_t >= 2 || case.cfg.parts_u >= 2;
+        if nlj && multi && matches!(case.fault, FaultKind::MemRefuse { disk: true, .. }) {
             return Some(NLJ_FALLBACK_SIGNATURE.to_string());
         }
         None
@@ -573,6 +587,6 @@ impl Property for C20 {
     }
 }
 
-pub const NLJ_FALLBACK_SIGNATURE: &str = "nlj-fallback-reexecutes-left-child";
+pub const NLJ_FALLBACK_SIGNATURE: &str = "nlj-oom-fallback-multi-partition";
 static FAULT_POINTS: std::sync::atomic::AtomicU64 = std::sync::atomic::AtomicU64::new(0);
 static REACHED_POINTS: std::sync::atomic::AtomicU64 = std::sync::atomic::AtomicU64::new(0);
